@@ -167,7 +167,7 @@ class Google:
     @staticmethod
     def summary_altered(lines: list, options: dict, parent: str) -> bool:
         """Documented options that alter the text on purpose (outside the plain-text clause)."""
-        return bool((options.get("ignore_init_summary") and parent == "init") or (options.get("returns_type_in_property_summary") and parent == "property"))
+        return bool((options.get("ignore_init_summary") and parent == "init") or (options.get("returns_type_in_property_summary") and parent in ("property", "tupleprop")))
 
     def check_classifier(self):
         """Every spelling of every class classifies back to the class (real regexes decide)."""
